@@ -16,6 +16,7 @@ the harness had not recorded — a disagreement about which call is made).
 -/
 import Driver.Util
 import CtyModel.Stdlib.Format
+import CtyModel.Stdlib.d14FormatList
 open CtyModel CtyModel.StdNum
 
 namespace HStdNum
@@ -164,7 +165,8 @@ def handleStdNum : Handler := fun op args =>
     let len ← Sexp.decInt len
     pure (toString (Sexp.list ((substrClusters cs off len).map Sexp.encStr)))
   | "std.glue", [.atom name, .list as, .list es] => do
-    let f ← (if name == "format" then some formatImpl else glueImpl name)
+    let f ← (if name == "format" then some formatImpl else if name == "formatlist" then some formatListImpl
+      else glueImpl name)
     let as ← as.mapM Value.ofSexp
     let t ← es.mapM decEntry
     let r1 := implRes (f (libOf t false) as)
